@@ -1092,3 +1092,23 @@ Example C17_example_info_compressed :
   (* a key for this archive without encryption is accepted *)
   x17_info true CompLayer.toy_dec x17_ca [[1]] = x17_info true CompLayer.toy_dec x17_ca [].
 Proof. split; [vm_compute; discriminate|]. split; vm_compute; reflexivity. Qed.
+
+(* ====================================================================================== *)
+(* Tie A, level 1 (work package linearT): `mlar extract` translated from mlar/src/main.rs (gen/Src3x.v) against the
+   command models of CliExtract.v: the whole-archive form IS Pool.extract_linear_pool on the pieces the walk delivers
+   to the names create_file accepted; the per-name form IS CliExtract.extract_listed_loop on the names the matcher
+   selects (premises: the io::copy of an ArchiveFile is Cli.io_copy; no panic below get_file).  One difference
+   with cmd_extract_linear_pool on archives that re-use an id: C17_tie_extract_linear_reused_id_differs. *)
+From MLA Require SrcTie3Cli SrcTie3CliDiff.
+Theorem C17_tie_extract_linear_sim : ltac:(let t := type of SrcTie3Cli.extract_linear_sim in exact t).
+Proof. exact SrcTie3Cli.extract_linear_sim. Qed.
+Theorem C17_tie_extract_linear_sim_none_skipped : ltac:(let t := type of SrcTie3Cli.extract_linear_sim_none_skipped in exact t).
+Proof. exact SrcTie3Cli.extract_linear_sim_none_skipped. Qed.
+Theorem C17_tie_extract_selected_body_sim : ltac:(let t := type of SrcTie3Cli.extract_selected_body_sim in exact t).
+Proof. exact SrcTie3Cli.extract_selected_body_sim. Qed.
+Theorem C17_tie_extract_linear_reused_id_differs : ltac:(let t := type of SrcTie3CliDiff.extract_linear_reused_id_differs in exact t).
+Proof. exact SrcTie3CliDiff.extract_linear_reused_id_differs. Qed.
+Print Assumptions C17_tie_extract_linear_sim.
+Print Assumptions C17_tie_extract_linear_sim_none_skipped.
+Print Assumptions C17_tie_extract_selected_body_sim.
+Print Assumptions C17_tie_extract_linear_reused_id_differs.
